@@ -195,11 +195,24 @@ def check_ibi(rep):
         l = sc.loop_of(e)
         if l and l not in lids:
             lids.append(l)
-    rep.floor("R19.1", len(lids), 2, "IBI sweeps (loops that write the update)")
-    if len(lids) != 2:
-        raise AnalysisBroken("update_ibi_pot.pl: expected two sweeps over the table, found %d" % len(lids))
+    # a sweep is a run of consecutive indices visited in one direction: a counting loop, or one range of a foreach over several ranges
+    sweeps = []
+    for lid in lids:
+        l = sc.loop(lid)
+        segs = l.get("segments") or []
+        if l["kind"] == "enteriter" and len(segs) > 1:
+            if any(sg[0] != "range" for sg in segs):
+                raise AnalysisBroken("update_ibi_pot.pl: the sweep at line %s iterates over a list the rule does not interpret" % l["line"])
+            for j_, sg in enumerate(segs):
+                sweeps.append({"lid": lid, "bounds": (sg[2], sg[1], -1) if sg[3] else (sg[1], sg[2], 1), "part": j_})
+        else:
+            sweeps.append({"lid": lid, "bounds": sc.bounds(lid), "part": 0})
+    rep.floor("R19.1", len(sweeps), 2, "IBI sweeps (index runs in which the update is written)")
+    if len(sweeps) != 2:
+        raise AnalysisBroken("update_ibi_pot.pl: expected two sweeps over the table, found %d" % len(sweeps))
     thr = Q(1, 10 ** 10)
     dirs = {}
+    carried_of = {}
     for k, lid in enumerate(lids):
         l = sc.loop(lid)
         isym = l.get("sym") if l["kind"] == "enteriter" else None
@@ -215,6 +228,7 @@ def check_ibi(rep):
         if len(carried) != 1:
             raise AnalysisBroken("update_ibi_pot.pl: the sweep at line %s carries %s around the loop (expected the last valid value only)" % (l["line"], [c_[0] for c_ in carried]))
         vname, vsym = carried[0]
+        carried_of[lid] = (vname, l["init"].get(vname))
 
         def orc(lf):
             if isinstance(lf, tuple) and lf and lf[0] == "match" and lf[1] == pfl and "u" in str(lf[2]):
@@ -246,8 +260,19 @@ def check_ibi(rep):
         rep.check(bad is None, "R19.1", "ibi|update#%d" % k, "dU = kBT*ln(g_cur/g_tgt) (flag i) where both rdfs > 1e-10 and the potential is defined; else the last valid value, flag o",
                   "update_ibi_pot.pl sweep at line %s: %s; required pref*log(rdf_cur/rdf_aim)/i for valid points and the continued last valid value/o elsewhere" % (l["line"], bad),
                   "%s:%s" % (sc.loc, l["line"]), sample=True)
-        b = sc.bounds(lid)
-        dirs[k] = b
+    for k, sw in enumerate(sweeps):
+        dirs[k] = sw["bounds"]
+        l = sc.loop(sw["lid"])
+        vname, v0 = carried_of[sw["lid"]]
+        if sw["part"] == 0:
+            ok0 = v0 is not None and getattr(v0, "is_number", False)
+            why0 = "starts with %s = %s" % (vname, v0)
+        else:
+            ok0, why0 = False, "is the continuation of a loop over several index ranges: %s still holds the last valid value of the previous range (%s..%s), which is not adjacent to the first point of this one" % (
+                vname, sweeps[k - 1]["bounds"][0], sweeps[k - 1]["bounds"][1])
+        rep.check(ok0, "R19.1", "ibi|fresh-start#%d" % k, "each sweep starts without a valid value from elsewhere (the continued value is a constant until a valid point is met)",
+                  "update_ibi_pot.pl sweep %s..%s (line %s) %s; 'the last valid value' must be one met on the way from the rdf maximum to the point" % (
+                      sw["bounds"][0] if sw["bounds"] else "?", sw["bounds"][1] if sw["bounds"] else "?", l["line"], why0), "%s:%s" % (sc.loc, l["line"]), sample=True)
     M = None
     okb, why = False, "sweep ranges %s" % ({k_: tuple(map(str, v_)) if v_ else None for k_, v_ in dirs.items()})
     fw = [b for b in dirs.values() if b and b[2] == 1]
